@@ -116,7 +116,7 @@ func init() {
 		Assumptions: []string{"the reference semantics (harness/rs) is the executable form of the README (DESIGN.md 4.2); programs that rely on something the README leaves open are detected by the reference itself and dropped (counted)", "float rendering is Go's shortest round-trip formatting"},
 		Families: []core.Family{
 			{Name: "corpus", Count: func(string) int { return len(corpusSessions()) * 2 * len(stressModes) }, Run: func(_ *core.Ctx, idx int) core.Result { return corpusCase("C01", idx, false) }},
-			{Name: "gen", Count: countFn(6000, 1500000), Run: c01Gen},
+			{Name: "gen", Count: countFn(16000, 1500000), Run: c01Gen},
 		},
 		Floors: []core.Floor{{Key: "statements_compared", Quick: 15000, Thor: 3000000}, {Key: "nontrivial", Quick: 2500, Thor: 500000}, {Key: "tag:shape:", Quick: 60, Thor: 80}, {Key: "tag:ctx:", Quick: 25, Thor: 25}},
 	})
